@@ -435,7 +435,12 @@ func c08R1(c *Ctx) {
 			switch v := r.Results[0].(type) {
 			case *ssa.MakeInterface:
 				if _, basic := v.X.Type().Underlying().(*types.Basic); basic {
-					ob.Ok("returns a value of basic type %s (copied by value)", shortType(v.X.Type()))
+					// and it is the stored payload itself, not something computed from it (Equals compares payloads: C07)
+					if why := c.scalarCopyIsPayload(name); why != "" {
+						ob.Fail("scalar copy does not return the stored payload unchanged: %s — the copy would differ from (not Equal) the source for some payloads", why)
+					} else {
+						ob.Ok("returns the stored payload, a value of basic type %s (copied by value)", shortType(v.X.Type()))
+					}
 				} else {
 					ob.Fail("scalar copy returns a %s, not a basic value: the copy would share the wrapper with the source", shortType(v.X.Type()))
 				}
@@ -702,4 +707,28 @@ func cloneShape(a *E3, ct *Cont, fn *ssa.Function) (bool, string) {
 		}
 	}
 	return true, "returns copy() of the receiver/ego unmodified"
+}
+
+// scalarCopyIsPayload: on every path of the wrapper's copy() the returned term is the receiver's payload (field or getVal() assertion).
+func (c *Ctx) scalarCopyIsPayload(name string) string {
+	fd := c.Decl(name)
+	if fd == nil {
+		return "declaration not found"
+	}
+	paths, why := c.runPaths(fd)
+	if why != "" {
+		return "body outside the path vocabulary: " + why
+	}
+	v := c.view(fd)
+	for _, p := range paths {
+		if p.End != "return" || len(p.Vals) != 1 {
+			return "a path does not return a value"
+		}
+		if !v.isPayloadTerm(p.Vals[0]) {
+			if e, ok := v.valueOf(p.Vals[0]); !ok || !v.isRecv(e) {
+				return "returns " + c.termStr(p.Vals[0])
+			}
+		}
+	}
+	return ""
 }
